@@ -142,7 +142,12 @@ def convertOp (isUser : Bool) (order : List Nat) (files : List (Str × Str)) : S
     | none => (t, outs ++ ["bad-index"], oom)
     | some (Except.error e) => (t, outs ++ [e], oom)
     | some (Except.ok q) =>
-      let (t', o) := Refine.step S t q
+      let (t', o0) := Refine.step S t q
+      -- a Mount= source resolved against the unit's directory is re-encoded by the CSV writer when it needs quoting
+      -- (quote, comma, CR, LF): that encoding is outside the model
+      let csvRisk := !(Cv.lookupAllArgs q.unit (Cv.s "Container") (Cv.s "Mount")).isEmpty
+        && q.path.any (fun c => c == '"' || c == ',' || c == '\n' || c == '\r')
+      let o := if csvRisk then Cv.Out.outOfModel else o0
       match o with
       | .ok svc => (t', outs ++ ["svc " ++ hexe (Cv.serviceFileName ((t.tbl q.name).getD (Cv.prefill q))) ++ " " ++ dumpUnit svc], oom)
       | .err e => (t', outs ++ ["err " ++ errVariant e], oom)
